@@ -3,7 +3,7 @@ open Soa Soa.Exec
 
 /-- line-protocol driver: reads scenarios (`shape …` line, then one operation per line) from
     stdin, prints the model (`I`) and specification (`S`) observation lines -/
-partial def loop (h : IO.FS.Stream) (st : Option (Ctx × World × Nat)) (k : Nat) : IO Unit := do
+partial def loop (prof : IdxIR.Prof) (h : IO.FS.Stream) (st : Option (Ctx × World × Nat)) (k : Nat) : IO Unit := do
   let line ← h.getLine
   if line.isEmpty then
     match st with
@@ -11,24 +11,26 @@ partial def loop (h : IO.FS.Stream) (st : Option (Ctx × World × Nat)) (k : Nat
     | none => pure ()
     return ()
   let line := line.trimAscii.toString
-  if line.isEmpty || line.startsWith "#" then loop h st k
+  if line.isEmpty || line.startsWith "#" then loop prof h st k
   else if line.startsWith "shape " then
     match st with
     | some (cx, w, _) => let (a, b) := endLines cx w; IO.println a; IO.println b
     | none => pure ()
-    match parseShapeLine line with
+    match parseShapeLine prof line with
     | some cx =>
       IO.println s!"# scenario {k} {line}"
-      loop h (some (cx, World.init cx, 0)) (k + 1)
+      loop prof h (some (cx, World.init cx, 0)) (k + 1)
     | none =>
       IO.println s!"# scenario {k} bad-shape"
-      loop h none (k + 1)
+      loop prof h none (k + 1)
   else
     match st with
     | some (cx, w, n) =>
       let (w', a, b) := stepLines cx w n line
       IO.println a; IO.println b
-      loop h (some (cx, w', n + 1)) k
-    | none => IO.println "bad-op"; loop h st k
+      loop prof h (some (cx, w', n + 1)) k
+    | none => IO.println "bad-op"; loop prof h st k
 
-def main : IO Unit := do loop (← IO.getStdin) none 0
+def main (args : List String) : IO Unit := do
+  let prof : IdxIR.Prof := if args == ["release"] then .release else .debug
+  loop prof (← IO.getStdin) none 0
